@@ -19,7 +19,7 @@
 //! period, keeping the repository compact.
 //!
 use crate::errors::Result;
-use crate::server::encryption::{Cryptor, Sealed, Unsealed};
+use crate::server::encryption::{Cryptor, Sealed, Secret, Unsealed};
 use crate::server::{
     AddVersionResult, GetVersionResult, HistorySegment, Server, Snapshot, SnapshotUrgency,
     VersionId,
@@ -85,6 +85,7 @@ pub(crate) struct GitSyncServer {
     branch: String,
     remote: Option<String>,
     local_only: bool,
+    encryption_secret: Secret,
     cryptor: Cryptor,
     /// Minimum age a version file must reach before cleanup() will remove it.
     version_retention: Duration,
@@ -227,7 +228,8 @@ impl GitSyncServer {
     ) -> Result<GitSyncServer> {
         let git = Git::new(git_path);
         let meta = Self::init_repo(&git, &local_path, &branch, remote.as_deref(), local_only)?;
-        let cryptor = Cryptor::new(&meta.salt, &encryption_secret.into())?;
+        let encryption_secret = encryption_secret.into();
+        let cryptor = Cryptor::new(&meta.salt, &encryption_secret)?;
         let server = GitSyncServer {
             git,
             meta,
@@ -235,6 +237,7 @@ impl GitSyncServer {
             branch,
             remote,
             local_only,
+            encryption_secret,
             cryptor,
             version_retention: VERSION_RETENTION,
         };
@@ -322,7 +325,13 @@ impl GitSyncServer {
 
     /// Read the meta file from disk and update self.meta.
     fn read_meta(&mut self) -> Result<()> {
-        self.meta = load_meta(&self.local_path.join("meta"))?;
+        let meta = load_meta(&self.local_path.join("meta"))?;
+        // The salt changes if this clone created its own meta for a then-empty remote and has
+        // since been reset to the meta another replica pushed first.
+        if meta.salt != self.meta.salt {
+            self.cryptor = Cryptor::new(&meta.salt, &self.encryption_secret)?;
+        }
+        self.meta = meta;
         Ok(())
     }
 
